@@ -222,3 +222,140 @@ def make_snapshot(root, rels):
         if os.path.isfile(p):
             with open(p, encoding='utf-8') as f, open(os.path.join(REFDIR, rel.replace('/', '__')), 'w', encoding='utf-8') as g:
                 g.write(f.read())
+
+
+# ---------------------------------------------------------------------------------------------------
+# Trivial copy propagation: `a = b` where b is a parameter (never rebound) or a name bound exactly once by
+# a plain top-level assignment of the function, and a is bound exactly once.  Every later read of `a` is a
+# read of `b`, so the rules (which recognise idioms by the reviewed names) see through the alias.
+def _binding_counts(fn):
+    """name -> number of binding occurrences in fn's own scope (parameters count once)."""
+    cnt = {}
+    a = fn.args
+    for x in a.posonlyargs + a.args + a.kwonlyargs + ([a.vararg] if a.vararg else []) + ([a.kwarg] if a.kwarg else []):
+        cnt[x.arg] = cnt.get(x.arg, 0) + 1
+    stack = list(fn.body)
+    while stack:
+        n = stack.pop()
+        if isinstance(n, (ast.FunctionDef, ast.AsyncFunctionDef, ast.ClassDef)):
+            cnt[n.name] = cnt.get(n.name, 0) + 1
+            continue
+        if isinstance(n, ast.Lambda):
+            continue
+        if isinstance(n, (ast.Global, ast.Nonlocal)):
+            for nm in n.names:
+                cnt[nm] = cnt.get(nm, 0) + 100
+        if isinstance(n, ast.Name) and isinstance(n.ctx, (ast.Store, ast.Del)):
+            cnt[n.id] = cnt.get(n.id, 0) + 1
+        if isinstance(n, (ast.Import, ast.ImportFrom)):
+            for al in n.names:
+                nm = (al.asname or al.name).split('.')[0]
+                cnt[nm] = cnt.get(nm, 0) + 1
+        if isinstance(n, ast.ExceptHandler) and n.name:
+            cnt[n.name] = cnt.get(n.name, 0) + 1
+        stack.extend(ast.iter_child_nodes(n))
+    return cnt
+
+
+def _copies(fn):
+    cnt = _binding_counts(fn)
+    params = {x.arg for x in fn.args.posonlyargs + fn.args.args + fn.args.kwonlyargs}
+    top_once = {s.targets[0].id for s in fn.body if isinstance(s, ast.Assign) and len(s.targets) == 1
+                and isinstance(s.targets[0], ast.Name) and cnt.get(s.targets[0].id) == 1}
+    m = {}
+
+    def visit(stmts, in_loop):
+        for s in stmts:
+            if isinstance(s, (ast.FunctionDef, ast.AsyncFunctionDef, ast.ClassDef)):
+                continue
+            if isinstance(s, ast.Assign) and len(s.targets) == 1 and isinstance(s.targets[0], ast.Name) \
+                    and isinstance(s.value, ast.Name) and not in_loop:
+                a, b = s.targets[0].id, s.value.id
+                if a != b and cnt.get(a) == 1 and a not in params and ((b in params and cnt.get(b) == 1) or b in top_once):
+                    m[a] = (b, s)
+            for f in ('body', 'orelse', 'finalbody'):
+                sub = getattr(s, f, None)
+                if isinstance(sub, list):
+                    visit(sub, in_loop or isinstance(s, (ast.For, ast.While)))
+            for h in getattr(s, 'handlers', []) or []:
+                visit(h.body, in_loop)
+    visit(fn.body, False)
+    # resolve chains a -> b -> c
+    out = {}
+    for a, (b, s) in m.items():
+        seen = {a}
+        while b in m and b not in seen:
+            seen.add(b)
+            b = m[b][0]
+        out[a] = (b, s)
+    return out
+
+
+def propagate_copies(rel, text):
+    """Only aliases that are new relative to the reviewed snapshot are seen through: names the reviewed
+    function already uses keep their meaning for the rules."""
+    ref_path = os.path.join(REFDIR, rel.replace('/', '__'))
+    if not os.path.isfile(ref_path):
+        return text
+    try:
+        with open(ref_path, encoding='utf-8') as f:
+            ref_text = f.read()
+        if ref_text == text:
+            return text
+        tree, ref = ast.parse(text), ast.parse(ref_text)
+    except (SyntaxError, OSError):
+        return text
+    rf = _functions(ref)
+    edits = []
+    blanks = []
+    for q, fn in _functions(tree).items():
+        m = _copies(fn)
+        if m and q in rf:
+            ref_ids = _idents(rf[q])
+            m = {a: v for a, v in m.items() if a not in ref_ids}
+        if not m:
+            continue
+        shadow = {}
+        for inner in [x for x in ast.walk(fn) if isinstance(x, (ast.FunctionDef, ast.AsyncFunctionDef, ast.Lambda)) and x is not fn]:
+            own = {a.arg for a in inner.args.posonlyargs + inner.args.args + inner.args.kwonlyargs}
+            body = inner.body if isinstance(inner.body, list) else [inner.body]
+            for b in body:
+                for x in ast.walk(b):
+                    if isinstance(x, ast.Name) and isinstance(x.ctx, ast.Store):
+                        own.add(x.id)
+            # a nested scope that rebinds either side of a copy keeps its own meaning
+            bad = {a for a, (b, _) in m.items() if a in own or b in own}
+            if bad:
+                for x in ast.walk(inner):
+                    shadow.setdefault(id(x), set()).update(bad)
+        kept = set()
+        for x in ast.walk(fn):
+            if isinstance(x, ast.Name) and isinstance(x.ctx, ast.Load) and x.id in m:
+                b, s = m[x.id]
+                if x.id not in shadow.get(id(x), ()) and x.lineno == x.end_lineno and (x.lineno, x.col_offset) > (s.lineno, s.col_offset):
+                    edits.append((x.lineno, x.col_offset, x.end_col_offset, b))
+                else:
+                    kept.add(x.id)
+        # the alias statement itself is dead once every read goes to the original: blank it (line numbers are kept)
+        parent_block = {}
+        for n in ast.walk(fn):
+            for f in ('body', 'orelse', 'finalbody'):
+                blk = getattr(n, f, None)
+                if isinstance(blk, list):
+                    for st in blk:
+                        parent_block[id(st)] = blk
+        for a, (b, s) in m.items():
+            blk = parent_block.get(id(s), [])
+            if a not in kept and len(blk) > 1 and s.lineno == s.end_lineno:
+                src_line = text.split('\n')[s.lineno - 1]
+                if src_line.strip() == ast.get_source_segment(text, s):
+                    blanks.append(s.lineno)
+    if not edits and not blanks:
+        return text
+    lines = text.split('\n')
+    for lineno, c0, c1, new in sorted(set(edits), reverse=True):
+        b = lines[lineno - 1].encode('utf-8')
+        lines[lineno - 1] = (b[:c0] + new.encode('utf-8') + b[c1:]).decode('utf-8')
+    for ln in blanks:
+        lines[ln - 1] = ''
+    return '\n'.join(lines)
